@@ -158,13 +158,31 @@ def sample_spec(rng, cls_name=None, allow_amorph=True, max_period=20, round_valu
     common = {}
     if round_values and rng.random() < 0.25:
         common["round_value"] = rng.choice((0, 1, 2, 3, 5, 6, 8))
+    if rng.random() < 0.08:
+        # legal naming options: a suffix (dots in names are sanitised by the library)
+        common["name_suffix"] = rng.choice(("x", "1.5", "v1.2", "b"))
     spec["common"] = common
     return spec
 
 
 # ----------------------------------------------------------------------------- builders
+# When set (minutes east of UTC) every candle built by the executor carries a fixed-offset tzinfo:
+# the stream is timezone-AWARE.  Buckets are defined on the timestamps' own wall-clock axis, so every
+# reference model is unchanged.  Set and reset by the executors that sample this dimension.
+TZ_OFFSET_MIN = None
+
+
+def stamp(seconds):
+    t = ts(seconds)
+    if TZ_OFFSET_MIN is not None:
+        from datetime import timezone
+
+        t = t.replace(tzinfo=timezone(timedelta(minutes=TZ_OFFSET_MIN)))
+    return t
+
+
 def mk_candle(row):
-    return Candle(row[1], row[2], row[3], row[4], row[5], timestamp=ts(row[0]))
+    return Candle(row[1], row[2], row[3], row[4], row[5], timestamp=stamp(row[0]))
 
 
 def mk_candles(rows):
@@ -173,13 +191,13 @@ def mk_candles(rows):
 
 def mk_dict(row):
     return {"open": row[1], "high": row[2], "low": row[3], "close": row[4], "volume": row[5],
-            "timestamp": ts(row[0])}
+            "timestamp": stamp(row[0])}
 
 
 def mk_list(row, ts_first=False):
     if ts_first:
-        return [ts(row[0]), row[1], row[2], row[3], row[4], row[5]]
-    return [row[1], row[2], row[3], row[4], row[5], ts(row[0])]
+        return [stamp(row[0]), row[1], row[2], row[3], row[4], row[5]]
+    return [row[1], row[2], row[3], row[4], row[5], stamp(row[0])]
 
 
 ENCODINGS = ["candle", "dict", "list", "candles", "dicts", "lists"]
@@ -191,12 +209,12 @@ _SINGLE = {"candle": "candles", "dict": "dicts", "list": "lists", "list_tsfirst"
 
 def _mk_dict_caps(row):
     return {"Open": row[1], "High": row[2], "Low": row[3], "Close": row[4], "Volume": row[5],
-            "Timestamp": ts(row[0])}
+            "Timestamp": stamp(row[0])}
 
 
 def _mk_dict_iso(row):
     d = mk_dict(row)
-    d["timestamp"] = ts(row[0]).isoformat()
+    d["timestamp"] = stamp(row[0]).isoformat()
     return d
 
 
@@ -226,8 +244,18 @@ def common_kwargs(common):
         if k == "lifespan_s":
             if v is not None:
                 kw["candles_lifespan"] = timedelta(seconds=v)
+        elif k == "tf_as_enum":
+            continue
         else:
             kw[k] = v
+    if (common or {}).get("tf_as_enum") and kw.get("timeframe"):
+        # the documented alternative form: a TimeFrame enum member instead of its string value
+        from hexital.utils.timeframe import TimeFrame
+
+        try:
+            kw["timeframe"] = TimeFrame(kw["timeframe"])
+        except ValueError:
+            pass
     return kw
 
 
@@ -297,6 +325,8 @@ def sample_members(rng, k, timeframes=(None,), allow_amorph=True, max_period=12,
         tf = rng.choice(timeframes)
         if tf:
             spec["common"]["timeframe"] = tf
+            if rng.random() < 0.2:
+                spec["common"]["tf_as_enum"] = True
         name = member_name(spec)
         if name in names or any(helper_collision(spec, o) for o in out):
             continue
